@@ -14,7 +14,7 @@ from gen import Generator, GenError, read_template, parse_template, unified, VER
 
 REPO = os.environ.get('VERIF_REPO', '/repo')
 BUILD = os.path.join(VERIF, 'build')
-EVID = os.path.join(VERIF, 'evidence')
+EVID = os.environ.get('EVID_DIR', os.path.join(VERIF, 'evidence'))
 
 VERIF_MSGS = [
     'postcondition not satisfied', 'precondition not satisfied', 'invariant not satisfied',
@@ -152,8 +152,8 @@ class UnitRun:
                     if fn and fn not in self.quarantine:
                         self.quarantine[fn] = 'verus: ' + d['message'][:200]
                         newq = True
-                    elif twin and twin not in self.quarantine:
-                        self.quarantine[twin] = 'verus (probe twin): ' + d['message'][:200]
+                    elif twin and ('twin:' + twin) not in self.quarantine:
+                        self.quarantine['twin:' + twin] = 'verus (probe twin): ' + d['message'][:200]
                         newq = True
                     elif not fn and not twin:
                         self.compile_errors.append('%s (line %s)' % (d['message'][:300], line))
@@ -170,7 +170,7 @@ class UnitRun:
             m = re.match(r'^/\* vacuity probe twin of (.*) \*/$', s)
             if m:
                 return m.group(1)
-            if s.startswith('/* extracted'):
+            if s.startswith('/* extracted') or s.startswith('/* end twin'):
                 return None
         return None
 
